@@ -120,6 +120,14 @@ def _batch(args):
     return results
 
 
+def _same(v, clause):
+    """clause may be a plain clause name or (clause, key): the same violation CLASS must persist while
+    shrinking (e.g. the same exception type), otherwise the minimiser drifts to another failure."""
+    if isinstance(clause, (list, tuple)):
+        return v.get("clause") == clause[0] and (v.get("key") or {}) == (clause[1] or {})
+    return v.get("clause") == clause
+
+
 def minimize(mod, scn, clause, budget=300, prelude=None):
     """Delta debugging over the scenario's own structure while the same clause still fails."""
     import copy
@@ -142,7 +150,7 @@ def minimize(mod, scn, clause, budget=300, prelude=None):
                     res = execute_scenario(mod, copy.deepcopy(cand))
             except Exception:  # noqa: BLE001 - ill-formed candidate
                 continue
-            if any(v.get("clause") == clause for v in res["violations"]):
+            if any(_same(v, clause) for v in res["violations"]):
                 current = cand
                 improved = True
                 break
@@ -226,7 +234,7 @@ def _minimize_prelude_job(args):
             res = _forked(_exec_with_prelude, pid, scn, pl)
         except Exception:  # noqa: BLE001
             return False
-        return any(v.get("clause") == clause for v in res["violations"])
+        return any(_same(v, clause) for v in res["violations"])
 
     cur = list(prelude)
     n = 2
@@ -472,13 +480,14 @@ def _check(sup, pid, tier, seed, workers, n_runs, time_cap, write_evidence, quie
         r, v = new_violation
         scn = r["scenario"]
         clause = v["clause"]
+        cls = [v["clause"], v.get("key") or {}]
         tried = 0
         prelude = []
         reproducible = True
         try:
             alone = sup.call("_replay_job", (pid, scn, []), cap=600)
             if any(x.get("clause") == clause for x in alone["violations"]):
-                scn_min, tried = sup.call("_minimize_job", (pid, scn, clause, int(budget.get("shrink", 300)), []), cap=900)
+                scn_min, tried = sup.call("_minimize_job", (pid, scn, cls, int(budget.get("shrink", 300)), []), cap=900)
             else:
                 # the violation needs process state left by earlier runs of its batch: replay them as prelude
                 batch = [b for b in batches if r["index"] in b][0]
@@ -486,8 +495,8 @@ def _check(sup, pid, tier, seed, workers, n_runs, time_cap, write_evidence, quie
                 prelude = sup.call("_scenarios_job", (pid, root, before, tier), cap=600)
                 withp = sup.call("_replay_job", (pid, scn, prelude), cap=900)
                 if any(x.get("clause") == clause for x in withp["violations"]):
-                    prelude, t1 = sup.call("_minimize_prelude_job", (pid, scn, clause, prelude), cap=900)
-                    scn_min, t2 = sup.call("_minimize_job", (pid, scn, clause, int(budget.get("shrink", 300)) // 2, prelude), cap=900)
+                    prelude, t1 = sup.call("_minimize_prelude_job", (pid, scn, cls, prelude), cap=900)
+                    scn_min, t2 = sup.call("_minimize_job", (pid, scn, cls, int(budget.get("shrink", 300)) // 2, prelude), cap=900)
                     tried = t1 + t2
                     print(f"note: the violation depends on process-global state left by {len(prelude)} earlier run(s) of the same batch; they are kept in the replay file as prelude")
                 else:
